@@ -5,6 +5,7 @@ import (
 	"encoding/json"
 	"fmt"
 	"html"
+	"io"
 	"net/url"
 	"reflect"
 	"sort"
@@ -68,6 +69,7 @@ func c14Init() {
 	s.AddGlobal("rec3", func(a, b, c string) string { return c14Rec("rec3", a, b, c) })
 	s.AddGlobal("recv1", func(a string, r ...string) string { return c14Rec("recv1", append([]string{a}, r...)...) })
 	s.AddGlobal("recv0", func(r ...string) string { return c14Rec("recv0", r...) })
+	s.AddGlobal("sw", jet.SafeWriter(func(w io.Writer, b []byte) { w.Write([]byte("{" + string(b) + "}")) }))
 	s.AddGlobal("obj", c14Obj{})
 	s.AddGlobal("pobj", &c14Obj{})
 	s.AddGlobalFunc("jf", func(a jet.Arguments) reflect.Value {
